@@ -1,9 +1,15 @@
 use std::collections::BTreeMap;
 use std::ops::Range;
 use std::path::{Path, PathBuf};
+#[cfg(not(locustdb_verif))]
 use std::sync::{mpsc, Arc, RwLock};
+#[cfg(locustdb_verif)]
+use locustdb_simrt::sync::{mpsc, Arc, RwLock};
 
+#[cfg(not(locustdb_verif))]
 use threadpool::ThreadPool;
+#[cfg(locustdb_verif)]
+use locustdb_simrt::ThreadPool;
 
 use super::azure_writer::AzureBlobWriter;
 use super::file_writer::{BlobWriter, FileBlobWriter, VersionedChecksummedBlobWriter};
@@ -255,6 +261,8 @@ impl Storage {
             let mut meta_store = self.meta_store.write().unwrap();
             segment.id = meta_store.add_wal_segment();
         }
+        #[cfg(locustdb_verif)]
+        locustdb_simrt::sync_point("wal:after_id_assigned");
         let path = self.wal_dir.join(format!("{}.wal", segment.id));
         let data = segment.serialize();
         self.perf_counter.disk_write_wal(data.len() as u64);
